@@ -566,6 +566,26 @@ def _attribute(item, clause):
     alone (same direction and mode) is the first edit's defect"""
     _, sql, k, edits, direction, mode = item
     if len(edits) >= 2:
+        # net effect first: a sequence whose edits partly cancel (join-insert ... join-pop of the same join) and whose
+        # target is the one a single edit of the source (or no edit at all) produces is that single edit's defect
+        b = build(sql, k, edits)
+        if b is not None:
+            want, single = repr(b[1]), None
+            if want == repr(b[0]):
+                single = (("copy", 0),)
+            else:
+                for e in edits_of(b[0]):
+                    try:
+                        c = apply_edit(b[0].copy(), e)
+                    except Exception:
+                        continue
+                    if repr(c) == want:
+                        single = (e,)
+                        break
+            if single is not None:
+                r = run_edit_pair(sql, k, single, direction, mode)
+                if r is not None and any(c == clause for c, _, _ in r[0]):
+                    return _kind_of(single)
         r = run_edit_pair(sql, k, edits[:1], direction, mode)
         if r is not None and any(c == clause for c, _, _ in r[0]):
             return edits[0][0]
@@ -688,7 +708,7 @@ def plan_items(tier):
     for (sql, k, depth), seqs in zip(jobs, seqlists):
         for c in range(0, len(seqs), CHUNK):
             items.append(("seqs", sql, k, tuple(seqs[c:c + CHUNK])))
-        for mode in ("none", "all"):
+        for mode in MODES:  # equal trees under every kind of caller-supplied matching
             items.append(("edit", sql, k, (("copy", 0),), "fwd", mode))
         for scen in ("shared-same-object", "shared-subtree", "shared-twice-in-source"):
             for mode in ("none", "all", "one"):
